@@ -246,3 +246,24 @@ pub proof fn lemma_fold_fwd_height(a: StAbs, cs: Seq<ChAbs>)
 {
     if cs.len() > 0 { lemma_fold_fwd_height(fwd_abs(a, cs[0]), cs.drop_first()); }
 }
+
+// ---- C15: the "closing swept" marker never outlives the fact it records ----------------------------
+// marker set => every output of the closing transaction that belongs to the node is spent on the current chain
+pub open spec fn marker_inv(a: StAbs) -> bool { a.closing_swept.is_some() ==> abs_closing_swept(a) }
+
+proof fn lemma_fold_bwd_keeps_markers(a: StAbs, cs: Seq<ChAbs>)
+    ensures fold_bwd(a, cs).closing_swept == a.closing_swept, fold_bwd(a, cs).our_swept == a.our_swept,
+    decreases cs.len(),
+{
+    if cs.len() > 0 { lemma_fold_bwd_keeps_markers(bwd_abs(a, cs[0]), cs.drop_first()); }
+}
+pub proof fn c15_marker_kept_by_remove_block(a: StAbs, cs: Seq<ChAbs>)
+    requires marker_inv(a),
+    ensures marker_inv(remove_block_abs(a, cs)),                                                  //[C15.lemma.marker-remove-block]
+{
+    lemma_fold_bwd_keeps_markers(a, cs.reverse());
+}
+
+// (The forward direction - a connected block never un-sweeps a swept closing transaction - is not derivable from the
+// change algebra alone: it needs the listener's emission discipline (a second close of the same funding output or a
+// repeated HTLC spend cannot occur on one chain), which lives in PushListener and is not decided.)
